@@ -37,6 +37,13 @@
    executor (a spawned task is polled on its own thread, C04), futures oneshot, the pool's
    internal protocol (C17; here only "a slot is occupied from accept to completion").
 
+   The caller's side of the oneshot: DropReceiver(i) - the receiver of an accepted closure may be
+   dropped at any time (fire-and-forget dispatch).  No action of the code reads rdrop: a closure
+   is started whether or not anybody still listens (ExactlyOnce, AllStartedAtJoin, SeqAllFinished,
+   EventuallyStarted hold with ReceiverDrops = TRUE).  Control: SkipIfReceiverGone = TRUE models
+   the realistic "optimisation"  if callback.is_canceled() { return }  at the head of the spawned
+   future (SkipStart); MC_Dispatcher_skip.cfg must violate AllStartedAtJoin.
+
    Repaired deviation, kept as a switch (notes/C18.md, /repo d1f1c64):  JoinerOnPool = TRUE is the
    pinned behaviour - join parks the joiner closure on a thread of the SAME blocking pool the
    worker runtimes use (JoinerHoldsPoolSlot); a task that needs the pool while no slot is left
